@@ -66,6 +66,15 @@ func main() {
 		switch *dump {
 		case "externals":
 			dumpExternals(p)
+		case "bindings":
+			c := newCtx(p, "dump", "quick")
+			b := newBinder(c, resultCarriers...)
+			fns, _ := c.scope(c.allEntryRoots(), scopeOpts{})
+			for _, tn := range flag.Args() {
+				for _, fs := range collectFieldStores(fns, tn) {
+					fmt.Printf("%-28s %-22s %s\n", shortName(fs.fn), tn+"."+fs.field, b.bind(fs.store.Val))
+				}
+			}
 		}
 		return
 	}
